@@ -681,6 +681,8 @@ def gen_C16(r):
                 if sc["end"] == ["exit", 0] and len(sc["steps"]) < 4:
                     sc["steps"] = sc["steps"] + [["nop"]] * r.choice([2, 4, 8])
         scn["enum"] = {"step": 0, "budget": 120 if _tier() == "quick" else 6000}
+        if r.random() < 0.4:
+            op["second_signal"] = "s%d" % r.randrange(10**6)
         return scn
     scn = _small_project(r, n=(2, 5), kinds={"exp": 6, "cmd": 3, "group": 1, "combine": 1}, p_par=0.7)
     scn["knobs"]["p_async"] = r.choice([0.0, 1e-3, 5e-3, 2e-2])
@@ -718,6 +720,9 @@ def gen_C16(r):
         # `cond run ... | reader` and the interrupt takes the reader down too: Conductor's own stdout fails
         # with EPIPE from the moment of the signal (I/O fault on the reporting path)
         op["stdout_gone_on_signal"] = True
+    if r.random() < 0.3:
+        # an impatient second Ctrl-C / a batch system repeating its SIGTERM
+        op["second_signal"] = "s%d" % r.randrange(10**6)
     ops.append(op)
     scn["history"] = ops
     scn["enum"] = {"step": len(ops) - 1, "budget": 120 if _tier() == "quick" else 6000}
